@@ -29,3 +29,8 @@ class DescriptorElement:
         for child in self.children:
             result += child.get_errors()
         return result
+
+    def reset_errors(self) -> None:
+        self.elt.reset()
+        for child in self.children:
+            child.reset_errors()
